@@ -38,10 +38,12 @@ def usage_pattern(kind, h, level, y, z):
     """how the score object is used, chosen reproducibly from the inputs: 0 plain; 1 another scorer of the same class (other
     degree / level) is constructed before this one is evaluated; 2 the scorer and the very same arrays were used for other data
     before and are refilled in place; 3 the scorer is constructed at level 0.5 and its public attribute level re-assigned;
-    4 as 2 with Python lists (edited in place with slice assignment) instead of numpy arrays"""
+    4 as 2 with Python lists (edited in place with slice assignment) instead of numpy arrays; 5 the scorer is constructed with
+    another degree (of the other kind: even <-> odd, positive <-> non-positive) and level, USED once on harmless data, and only
+    then are its public attributes degree / level re-assigned (nothing computed at first use may be remembered)"""
     import zlib
 
-    return zlib.crc32(repr((kind, h, level, list(y), list(z))).encode()) % 5
+    return zlib.crc32(repr((kind, h, level, list(y), list(z))).encode()) % 6
 
 
 def call_score(kind, h, level, y, z, w=None):
@@ -51,6 +53,17 @@ def call_score(kind, h, level, y, z, w=None):
         if pat == 3 and kind in ("hes", "hqs", "pinball") and valid_level:
             # constructed with other parameters, the public attributes re-assigned afterwards
             sf = make_sf(kind, {"hes": 2.0, "hqs": 1.0}.get(kind, h), 0.5)
+            sf.level = level
+            if kind in ("hes", "hqs"):
+                sf.degree = h
+        elif pat == 5 and kind in ("hes", "hqs", "pinball") and valid_level:
+            other = {"hes": 3.0 if float(h) <= 1 else 0.5, "hqs": 4.0 if (float(h) > 0 and float(h) % 2 == 1) else 3.0}.get(kind, h)
+            sf = make_sf(kind, other, 0.75 if level != 0.75 else 0.25)
+            try:
+                sf.score_per_obs(np.array([1.5, 2.0]), np.array([2.5, 1.0]))
+                sf(np.array([1.5, 2.0]), np.array([2.5, 1.0]))
+            except Exception:
+                pass
             sf.level = level
             if kind in ("hes", "hqs"):
                 sf.degree = h
